@@ -990,6 +990,10 @@ func cacheCheck(r *vx.Run, in nsx.Input, script string) {
 			in2.Script = script
 			r.FailP("C08", fmt.Sprintf("cache:differs-from-fresh-compilation:size-%d", []int{1, 2, 64}[i]), in2,
 				"command.Compiler returned a program (or error) other than compiler.Compile of the same text", len(script))
+			// the same fact read as C12's last clause: what an earlier execution left in the engine (its cache entry)
+			// changes what a later request runs
+			r.FailP("C12", "residue:an-earlier-script-left-in-the-cache-is-run-for-another-text", in2,
+				"the engine's compiler hands this text the program (or error) of a different text compiled before", len(script))
 		}
 	}
 }
